@@ -197,7 +197,7 @@ def gen_call_like(ctx, depth, recv_cls_of_caller=None):
     skip = f["kind"] in ("method", "classmethod")
     args, kwargs = gen_args(ctx, f, skip)
     rc = (recv or {}).get("inst") or (recv or {}).get("cls")
-    if f["body"] in ("gen", "coro"):
+    if f["body"] in ("gen", "coro", "agen"):
         h = ctx.next_h
         ctx.next_h += 1
         return {"a": "start", "h": h, "fid": f["fid"], "recv": recv, "args": args, "kwargs": kwargs,
@@ -258,12 +258,20 @@ def gen_script(ctx, f, depth, recv_cls=None, top=False):
         if ctx.kn.get("rnd_p") and rng.random() < ctx.kn["rnd_p"]:
             acts.append({"a": "rnd"})
             continue
-        if names and body != "coro" and ctx.kn.get("mutate_p") and rng.random() < ctx.kn["mutate_p"]:
+        if names and body not in ("coro", "agen") and ctx.kn.get("mutate_p") and rng.random() < ctx.kn["mutate_p"]:
             # mutate, in place, the container bound to a parameter (no-op at run time if it is not an exact list / dict / set)
             acts.append({"a": "mut", "p": rng.choice(names), "v": V.gen_atom(rng, dict(ctx.kn, tw_p=0), ctx.classes),
                          "key": rng.choice([["s", "mk"], ["s", "k1"], ["i", 9], ["s", "x"], ["n"]]),
                          # replace an existing item (the container keeps its length) instead of adding one
                          "rep": rng.random() < 0.5})
+            continue
+        if body == "agen" and r < 0.6:
+            if r < 0.35:
+                acts.append({"a": "yield", "v": V.gen_value(rng, ctx.kn, ctx.classes), "catch": rng.random() < 0.3})
+            else:
+                acts.append({"a": "await"})
+            if names and ctx.kn.get("rebind", True) and rng.random() < 0.3:
+                acts.append({"a": "rebind", "p": rng.choice(names), "v": V.gen_value(rng, ctx.kn, ctx.classes)})
             continue
         if body == "gen" and r < 0.45:
             acts.append({"a": "yield", "v": V.gen_value(rng, ctx.kn, ctx.classes), "catch": rng.random() < 0.3})
@@ -275,7 +283,7 @@ def gen_script(ctx, f, depth, recv_cls=None, top=False):
             if names and ctx.kn.get("rebind", True) and rng.random() < 0.3:
                 acts.append({"a": "rebind", "p": rng.choice(names), "v": V.gen_value(rng, ctx.kn, ctx.classes)})
             continue
-        if body == "coro" and r < 0.5 and depth > 0:
+        if body in ("coro", "agen") and r < (0.5 if body == "coro" else 0.7) and depth > 0:
             t = pick_target(ctx, want_body=("coro",))
             if t is not None:
                 g, recv = t
@@ -319,7 +327,13 @@ def gen_script(ctx, f, depth, recv_cls=None, top=False):
                 if a["a"] == "start" and rng.random() < 0.7:
                     acts.append({"a": "step", "h": a["h"], "mode": 0, "catch": rng.random() < 0.8})
                 continue
-    if f is not None:
+    if f is not None and body == "agen":
+        r = rng.random()
+        if r < 0.3:
+            acts.append({"a": "retnone"})
+        elif r < 0.45 and ctx.kn.get("raises", True):
+            acts.append({"a": "raise", "exc": rng.choice(["ValueError", "KeyError", "SimError", "RuntimeError"])})
+    elif f is not None:
         if names and rng.random() < 0.12:
             # exit by returning a parameter object itself, after (possibly) re-binding it
             if rng.random() < 0.6:
@@ -464,6 +478,22 @@ def finish_handles():
         obj = h[0]
         try:
             if obj is not None and h[2]:
-                obj.close()
+                if len(h) > 4 and h[3] == "a":
+                    # async generator: finish a pending asend/athrow awaitable, then drive aclose() to completion
+                    aw = h[4]
+                    h[4] = None
+                    if aw is not None:
+                        try:
+                            aw.throw(GeneratorExit)
+                        except BaseException:
+                            pass
+                    aw = obj.aclose()
+                    try:
+                        aw.send(None)
+                    except BaseException:
+                        pass
+                    aw = None
+                else:
+                    obj.close()
         except BaseException:
             pass
